@@ -873,7 +873,7 @@ pub(crate) mod inner {
             if v.len() != SIZE_IN_BYTES {
                 return Err(serde::de::Error::invalid_length(v.len(), &self));
             }
-            Ok(Self::Value::try_from(v).unwrap())
+            Self::Value::try_from(v).map_err(serde::de::Error::custom::<ParseError>)
         }
     }
 
